@@ -1,6 +1,7 @@
 import SC.Proofs.SpecIndex
 import SC.Proofs.IdxRune2
 import SC.Proofs.SpecFirstBy
+import SC.Proofs.RLastIndexByte
 /-!
 # C10 — single-character searches find the first/last member of the character's orbit
 -/
@@ -67,6 +68,16 @@ theorem indexByte_first (cfg : A.Cfg) (s : Bytes) (c : UInt8) (hc : c < 0x80) :
 theorem indexRune_refines (cfg : A.Cfg) (s : Bytes) (r : Int) : A.IndexRune cfg s r = S.indexRune s r := A.IndexRune_eq cfg s r
 theorem containsRune_refines (cfg : A.Cfg) (s : Bytes) (r : Int) : A.ContainsRune cfg s r = S.containsRune s r :=
   A.ContainsRune_eq cfg s r
+
+/-- `LastIndexByte` on an ASCII byte: the last code point in its orbit (other case; U+212A for K/k, U+017F for S/s) -/
+theorem lastIndexByte_last (cfg : A.Cfg) (s : Bytes) (c : UInt8) (hc : c < 0x80) :
+    A.IsLastBy (fun x => Fold.caseFold x == Fold.caseFold c.toNat) s (A.LastIndexByte cfg s c) :=
+  A.LastIndexByte_isLastBy cfg s c hc
+
+/-- `lastIndexRune`: the last code point in the orbit of a valid non-ASCII rune (or U+FFFD) -/
+theorem lastIndexRune_last (cfg : A.Cfg) (s : Bytes) (u : Nat) (hv : validRune u) (h80 : 0x80 ≤ u) :
+    A.IsLastBy (fun x => Fold.caseFold x == Fold.caseFold u) s (A.lastIndexRune cfg s (u : Int)) :=
+  A.lastIndexRune_isLastBy cfg s u hv h80
 
 example : S.indexRune [0x78, 0xE2, 0x84, 0xAA] 0x6B = 1 ∧ S.indexRune [0x78, 0xFF] 0xFFFD = 1 ∧
     S.indexByte [0x78, 0xC5, 0xBF] 0x53 = 1 ∧ S.lastIndexByte [0x6B, 0xE2, 0x84, 0xAA, 0x78] 0x4B = 1 ∧
